@@ -150,7 +150,8 @@ def body_lines(body: list, style: Style = PLAIN, indent: int = 1, elif_ok: bool 
     for s in body:
         k = s["k"]
         if k == "assign":
-            out.append(f"{pad}{s['name']} = {_strip(expr_src(s['e'], style))}")
+            ann = ": float" if s.get("ann") else ""         # annotated assignment  x: float = e
+            out.append(f"{pad}{s['name']}{ann} = {_strip(expr_src(s['e'], style))}")
         elif k == "ret":
             out.append(f"{pad}return {_strip(expr_src(s['e'], style))}")
         elif k == "chain":
